@@ -66,6 +66,7 @@ type stream struct {
 	finishStreamWithEndEventCh   chan struct{}
 	finishStreamWithCloseCh      chan struct{}
 	offsets                      *wrapper.ConcurrentSwissMap[uint16, *models.Offset]
+	closedOffsets                *wrapper.ConcurrentSwissMap[uint16, *models.Offset]
 	observers                    *wrapper.ConcurrentSwissMap[uint16, couchbase.Observer]
 	collectionIDs                map[uint32]string
 	streamEndNotSupportedData    *streamEndNotSupportedData
@@ -90,6 +91,12 @@ func (s *stream) setOffset(vbID uint16, offset *models.Offset, dirty bool) {
 	if s.vbIDRange.In(vbID) {
 		if current, ok := s.offsets.Load(vbID); ok && current.SeqNo > offset.SeqNo {
 			return
+		}
+		// closed for a rebalance: the table is empty, the position the closed session reached still counts
+		if closed := s.closedOffsets; closed != nil {
+			if current, ok := closed.Load(vbID); ok && current.SeqNo > offset.SeqNo {
+				return
+			}
 		}
 		s.offsets.Store(vbID, offset)
 		s.consumer.TrackOffset(vbID, offset)
@@ -265,6 +272,7 @@ func (s *stream) Open() {
 
 	s.checkpoint = NewCheckpoint(s, vbIDs, s.client, s.metadata, s.config, latestSeqNoInitializer)
 	s.offsets, s.dirtyOffsets, s.anyDirtyOffset = s.checkpoint.Load()
+	s.closedOffsets = nil
 
 	s.observers = wrapper.CreateConcurrentSwissMap[uint16, couchbase.Observer](1024)
 	s.offsets.Range(func(vbID uint16, offset *models.Offset) bool {
@@ -484,6 +492,7 @@ func (s *stream) Close(closeWithCancel bool) {
 	})
 	s.observers = nil
 
+	s.closedOffsets = s.offsets
 	s.offsets = wrapper.CreateConcurrentSwissMap[uint16, *models.Offset](1024)
 	s.dirtyOffsets = wrapper.CreateConcurrentSwissMap[uint16, bool](1024)
 
